@@ -1,5 +1,6 @@
 import FatVerif.Proofs.FileSimSeek
 import FatVerif.Proofs.ImgLemmas
+import FatVerif.Proofs.FileSimTrace
 /-!
 # FileSim, part 6: device writes on a fault-free device, `set_dirty_flag`, frame lemmas
 
@@ -42,6 +43,12 @@ theorem didWrite_img (d : Dev) (bs : List Nat) (hfit : d.pos + bs.length ≤ d.i
   show d.img.write d.pos (bs.take (min bs.length (d.img.size - d.pos))) = _
   rw [this, List.take_length]
 
+theorem didWrite_log (d : Dev) (bs : List Nat) (hfit : d.pos + bs.length ≤ d.img.size) :
+    (didWrite d bs).log = .write d.pos bs :: d.log := by
+  have : min bs.length (d.img.size - d.pos) = bs.length := by omega
+  show LogItem.write d.pos (bs.take (min bs.length (d.img.size - d.pos))) :: d.log = _
+  rw [this, List.take_length]
+
 /-- `write_u8` on the raw device with room for the byte -/
 theorem run_writeU8_dev (v : Nat) (d : Dev) (h : d.failAt = none) (hfit : d.pos + 1 ≤ d.img.size) :
     run (writeU8 devStrm () v) d = (.ok (), didWrite d [v % 256]) := by
@@ -62,6 +69,10 @@ def FsGeomEq (a b : FsState) : Prop :=
   b = { a with fsInfo := b.fsInfo, curDirty := b.curDirty, curIoErr := b.curIoErr }
 
 theorem FsGeomEq.refl (a : FsState) : FsGeomEq a a := rfl
+
+theorem FsGeomEq.symm {a b : FsState} (h : FsGeomEq a b) : FsGeomEq b a := by
+  unfold FsGeomEq at h ⊢
+  rw [h]
 
 theorem FsGeomEq.trans {a b c : FsState} (h1 : FsGeomEq a b) (h2 : FsGeomEq b c) : FsGeomEq a c := by
   unfold FsGeomEq at *
@@ -148,6 +159,39 @@ theorem setDirtyFlag_only_status (d d' : Dev) (hr : run (setDirtyFlag true) d = 
     show (d.img.write (statusOff d.fs) _).getByte q = _
     rw [Img.getByte_write_of_not_mem _ hw _ _ _ (by simp only [List.length_singleton]; omega)]
 
+/-- … by at most one record: the status byte -/
+theorem setDirtyFlag_trace (d d' : Dev) (hr : run (setDirtyFlag true) d = (.ok (), d')) (hfa : d.failAt = none)
+    (hsz : 0x42 ≤ d.img.size) (E D : Nat → Prop) : Trace d.fs E D d d' := by
+  unfold setDirtyFlag at hr
+  rw [run_bind_ok (run_getFs d)] at hr
+  simp only [Bool.or_true] at hr
+  by_cases hc : ((true == d.fs.curDirty && d.fs.bpbIoErr == d.fs.curIoErr) = true)
+  · rw [if_pos hc] at hr
+    have : d' = d := (congrArg Prod.snd hr).symm
+    rw [this]; exact Trace.refl _ _ _ d
+  · rw [if_neg hc] at hr
+    have hoff : (if (d.fs.fatType == FatType.fat32) = true then 65 else 37) = statusOff d.fs := rfl
+    rw [hoff] at hr
+    have hoff42 : statusOff d.fs < 0x42 := by unfold statusOff; split <;> decide
+    rw [run_bind_ok (run_seekStart (statusOff d.fs) d hfa)] at hr
+    have hfa1 : (d.didSeek (statusOff d.fs)).failAt = none := hfa
+    rw [run_bind_ok (run_writeU8_dev _ (d.didSeek (statusOff d.fs)) hfa1
+      (by simp only [didSeek_pos, didSeek_img]; omega)), run_modifyFs] at hr
+    have hd' : d' = _ := (congrArg Prod.snd hr).symm
+    rw [hd']
+    refine Trace.single (off := statusOff d.fs)
+      (bs := [(encodeStatus true d.fs.bpbIoErr ||| d.fs.statusRaw / 4 * 4) % 256]) ?_ ?_ (Or.inl ⟨rfl, rfl⟩)
+    · show (didWrite (d.didSeek (statusOff d.fs)) _).log = _
+      have hmin : min [(encodeStatus true d.fs.bpbIoErr ||| d.fs.statusRaw / 4 * 4) % 256].length
+          ((d.didSeek (statusOff d.fs)).img.size - (d.didSeek (statusOff d.fs)).pos) = 1 := by
+        simp only [didSeek_pos, didSeek_img, List.length_singleton]; omega
+      show LogItem.write (d.didSeek (statusOff d.fs)).pos (List.take (min _ _) _) :: (d.didSeek (statusOff d.fs)).log = _
+      rw [hmin]
+      rfl
+    · show (didWrite (d.didSeek (statusOff d.fs)) _).img = _
+      rw [didWrite_img _ _ (by simp only [didSeek_pos, didSeek_img, List.length_singleton]; omega)]
+      rfl
+
 /-! ### frame lemmas -/
 
 section
@@ -163,6 +207,19 @@ theorem FsGeomEq.accDate (h : FsGeomEq a b) : b.accDate = a.accDate := by rw [h]
 
 theorem Geo.frame {sz : Nat} (g : Geo a sz) (h : FsGeomEq a b) : Geo b sz := by
   rw [h]; exact ⟨g.bps_pos, g.spc_pos, g.status_lt, g.ents, g.mirrors_pos, g.fat_data, g.data_dev, g.u32a, g.u32b, g.fat_u32, g.small⟩
+
+theorem RecOk.frame (h : FsGeomEq a b) {E D : Nat → Prop} {img : Img} {r : Rec} (hr : RecOk a E D img r) :
+    RecOk b E D img r := by
+  rw [h]; exact hr
+
+theorem Classified.frame (h : FsGeomEq a b) {E D : Nat → Prop} : ∀ {recs : List Rec} {img : Img},
+    Classified a E D img recs → Classified b E D img recs
+  | [], _, _ => trivial
+  | _ :: _, _, hc => ⟨hc.1.frame h, Classified.frame h hc.2⟩
+
+theorem Trace.frame (h : FsGeomEq a b) {E D : Nat → Prop} {d d' : Dev} (ht : Trace a E D d d') : Trace b E D d d' := by
+  obtain ⟨r, l, i, c⟩ := ht
+  exact ⟨r, l, i, c.frame h⟩
 
 end
 
